@@ -52,8 +52,14 @@ def acceptFindings (res : List String) (modelRes : String) (src? : Option Pos) :
     if Valid src then
       if kind != "OK" then fs := fs.push (fO "complete" s!"a valid position was rejected: {showPos src}")
       else match (res[1]?).bind board? with
-        | some b => if !posEq (memo b.abs) (memo (norm src)) then
+        | some b =>
+          -- same placement, side and rights; the en-passant mark within the bounds the property states
+          let pa := memo b.abs
+          if !posEq { pa with ep := none } { src with ep := none } then
             fs := fs.push (fO "complete" s!"accepted as {showPos b.abs}, input denotes {showPos (norm src)}")
+          else match epPolicy src pa.ep with
+            | some why => fs := fs.push (fO "complete" s!"{why}: accepted as {showPos b.abs}, input denotes {showPos src}")
+            | none => pure ()
         | none => pure ()
   | none => pure ()
   return fs
